@@ -125,7 +125,7 @@ func (i Info) AppendHash(dst []byte, h hash.Hash) []byte {
 	// Hash forms
 	for _, infoForm := range i.Form {
 		var formType string
-		fields := make([]string, 0, infoForm.Len()-1)
+		fields := make([]string, 0, infoForm.Len())
 		infoForm.ForFields(func(f form.FieldData) {
 			if f.Var == "FORM_TYPE" {
 				formType, _ = infoForm.GetString("FORM_TYPE")
